@@ -190,3 +190,90 @@ pub fn eval_all(asg: &[u64]) -> Vec<u64> {
         val
     })
 }
+
+/// Taint query (NaN-taint semantics of C07/C08): one Bool per input variable ("may hold a
+/// non-finite / foreign value"), node taint = OR of operand taints, and the question whether some
+/// goal's output can be tainted while every variable of that goal's own chunk is clean.
+/// `own[g]` lists the clean variables of goal g. unsat = no output syntactically uses a foreign value.
+pub fn emit_taint(lhs: &[Sym], own: &[Vec<u32>], path: &str) -> SmtStats {
+    with(|c| {
+        let mut need = vec![false; c.nodes.len()];
+        let mut stack: Vec<u32> = lhs.iter().filter_map(|g| if let Sym::V(v) = g { Some(*v) } else { None }).collect();
+        while let Some(v) = stack.pop() {
+            if need[v as usize] {
+                continue;
+            }
+            need[v as usize] = true;
+            match c.nodes[v as usize] {
+                Node::In(_) | Node::C(_) => {}
+                Node::Add(a, b) | Node::Sub(a, b) | Node::Mul(a, b) => {
+                    stack.push(a);
+                    stack.push(b);
+                }
+                Node::Neg(a) | Node::MulC(_, a) => stack.push(a),
+            }
+        }
+        let mut s = String::with_capacity(1 << 20);
+        s.push_str("(set-option :produce-models true)\n(set-logic QF_UF)\n");
+        let mut used = vec![false; c.inputs.len()];
+        for (i, n) in c.nodes.iter().enumerate() {
+            if need[i] {
+                if let Node::In(j) = n {
+                    used[*j as usize] = true;
+                }
+            }
+        }
+        for o in own {
+            for v in o {
+                used[*v as usize] = true;
+            }
+        }
+        let mut nv = 0;
+        for (j, u) in used.iter().enumerate() {
+            if *u {
+                nv += 1;
+                writeln!(s, "(declare-const t{} Bool)", j).unwrap();
+            }
+        }
+        let mut cone = 0;
+        for (i, nd) in c.nodes.iter().enumerate() {
+            if !need[i] {
+                continue;
+            }
+            cone += 1;
+            let e = match nd {
+                Node::In(j) => format!("t{}", j),
+                Node::C(_) => "false".to_string(),
+                Node::Add(a, b) | Node::Sub(a, b) | Node::Mul(a, b) => format!("(or m{} m{})", a, b),
+                Node::MulC(_, v) | Node::Neg(v) => format!("m{}", v),
+            };
+            writeln!(s, "(define-fun m{} () Bool {})", i, e).unwrap();
+        }
+        s.push_str("(assert (or false");
+        for (g, o) in lhs.iter().zip(own.iter()) {
+            let t = match g {
+                Sym::K(_) => "false".to_string(),
+                Sym::V(v) => format!("m{}", v),
+            };
+            write!(s, "\n (and {} (not (or false", t).unwrap();
+            for v in o {
+                write!(s, " t{}", v).unwrap();
+            }
+            s.push_str(")))");
+        }
+        s.push_str("))\n(check-sat)\n(get-value (");
+        let mut any = false;
+        for (j, u) in used.iter().enumerate() {
+            if *u {
+                write!(s, "t{} ", j).unwrap();
+                any = true;
+            }
+        }
+        if !any {
+            s.push_str("false");
+        }
+        s.push_str("))\n");
+        std::fs::write(path, &s).unwrap();
+        SmtStats { nodes_in_cone: cone, vars: nv, disjuncts: lhs.len(), bytes: s.len() }
+    })
+}
